@@ -789,6 +789,17 @@ func c16Converters(c *Check) {
 					return sel.Sel.Name, true
 				}
 			}
+			// locals that carry the default pair into the literal (`defaultCode, defaultEnch := 554, …`)
+			if id, ok := l.(*ast.Ident); ok {
+				if v, ok := objOf(info, id).(*types.Var); ok && !v.IsField() && v != resObj && posIn(fi.Decl.Body, v.Pos()) {
+					if bt, ok := v.Type().Underlying().(*types.Basic); ok && bt.Info()&types.IsInteger != 0 {
+						return "local:" + v.Name(), true
+					}
+					if _, isArr := v.Type().Underlying().(*types.Array); isArr {
+						return "local:" + v.Name(), true
+					}
+				}
+			}
 			return "", false
 		}
 		pe := &pathEvaluator{f: flow, budget: 50000, tracked: trk, constOnly: true}
@@ -805,7 +816,7 @@ func c16Converters(c *Check) {
 					for _, el := range cl.Elts {
 						if kv, ok := el.(*ast.KeyValueExpr); ok {
 							if id, ok := kv.Key.(*ast.Ident); ok && (id.Name == "Code" || id.Name == "EnhancedCode") {
-								env[id.Name] = ev(kv.Value, nil)
+								env[id.Name] = ev(kv.Value, envLookup(info, trk, env))
 							}
 						}
 					}
@@ -836,14 +847,16 @@ func c16Converters(c *Check) {
 			npaths++
 			temp := -1
 			for _, d := range dec {
-				if call, ok := ast.Unparen(d.Cond).(*ast.CallExpr); ok {
-					q := qname(callee(info, call))
-					if q == exterrPkg+".IsTemporary" || q == exterrPkg+".IsTemporaryOrUnspec" {
-						usedPred[q] = true
-						if d.Succ == 0 {
-							temp = 1
-						} else {
-							temp = 0
+				for _, af := range atomsOnEdge(d.Cond, d.Succ) {
+					if call, ok := ast.Unparen(af.E).(*ast.CallExpr); ok {
+						q := qname(callee(info, call))
+						if q == exterrPkg+".IsTemporary" || q == exterrPkg+".IsTemporaryOrUnspec" {
+							usedPred[q] = true
+							if af.T {
+								temp = 1
+							} else {
+								temp = 0
+							}
 						}
 					}
 				}
